@@ -21,7 +21,7 @@ ASSUMPTIONS = ["tolerance 2e-5 relative for monotonicity, 5e-5 for the scale law
                "seaweed growth factors are not perturbed (biomass cannot be freely disposed of, so monotonicity in growth is not implied)"]
 TOL, TOL_LOOSE = 2e-5, 5e-5
 
-KINDS = ["stored", "crops", "meat", "milk", "fish", "greenhouse", "scp", "cs", "seaweed_area", "waste", "waste_one", "waste_one", "feed_charge",
+KINDS = ["stored", "crops", "meat", "meat_stock", "milk", "fish", "greenhouse", "scp", "cs", "seaweed_area", "waste", "waste_one", "waste_one", "feed_charge",
          "biofuel_charge", "scale"]
 WASTE_KEYS = [("STORED_FOOD_WASTE_RETAIL", "ADD_STORED_FOOD"), ("CROP_WASTE_RETAIL", "ADD_OUTDOOR_GROWING"), ("MEAT_WASTE_RETAIL", "ADD_MEAT"),
               ("SCP_RETAIL_WASTE", "ADD_METHANE_SCP"), ("CELL_SUGAR_RETAIL_WASTE", "ADD_CELLULOSIC_SUGAR"), ("SEAWEED_WASTE_RETAIL", "ADD_SEAWEED")]
@@ -65,6 +65,12 @@ def apply(c, tc, p):
         a[m] += delta
         tc["each_month_meat_slaughtered"].kcals = a
         tc["max_consumed_culled_kcals_each_month"] = np.cumsum(a)
+        c["meat_summed_consumption"] = float(c["meat_summed_consumption"]) + delta
+        return c, tc, "up"
+    if k == "meat_stock":
+        # the initial meat stock on its own (the month-by-month slaughter ceiling left alone)
+        if not c["ADD_MEAT"]:
+            return None
         c["meat_summed_consumption"] = float(c["meat_summed_consumption"]) + delta
         return c, tc, "up"
     if k == "milk":
